@@ -5,6 +5,8 @@
 From Coq Require Import String Lia.
 From PS Require Import Base.Bytes Base.Result Model.Converter Model.Parser Model.ParserInst Model.VarList.
 From PS Require Import Proofs.ParserProps Proofs.ParserChecks Proofs.VarListProps Spec.RespFormats Gen.Tables Gen.Parsers.
+From Coq Require Import ZArith.
+From PS Require Import Model.Py Proofs.PyLemmas Proofs.PyParsers Gen.PyFuncs.
 Open Scope string_scope.
 Open Scope N_scope.
 
@@ -71,4 +73,63 @@ Example C04_example_report_luns :
   parse_list_named "scsi_cdb_report_luns.ReportLuns.unmarshall_datain"
     ([0; 0; 0; 16; 0; 0; 0; 0] ++ [0; 1; 0; 0; 0; 0; 0; 0] ++ [0; 2; 0; 0; 0; 0; 0; 9] ++ [7; 7; 7])%list =
   Some [[0; 1; 0; 0; 0; 0; 0; 0]; [0; 2; 0; 0; 0; 0; 0; 9]].
+Proof. vm_compute. reflexivity. Qed.
+
+(* ------------------------------------------------------------------------------------------------------------------
+   WHOLE DECODER BODIES.  The bodies of the decoders are REGENERATED statement by statement (Gen/PyFuncs.v) as programs
+   of the small Python of Model/Py.v; the theorems below run those very programs (call_fun), for every descriptor
+   count, every content and any trailing bytes, with no bound. *)
+
+(* GET LBA STATUS: 8-byte header + n descriptors of 16 bytes + anything, PARAMETER DATA LENGTH = 4 + 16 n *)
+Theorem C04_py_getlbastatus_exact : forall (hdr : bytes) (descs : list bytes) (trail : bytes) f,
+  length hdr = 8%nat -> Forall (fun d => length d = 16%nat) descs ->
+  (Z.of_N (ba_to_int (firstn 4 hdr)) + 4 = Z.of_nat (8 + length (concat descs)))%Z ->
+  (length descs + 2 <= f)%nat ->
+  call_fun all_tables py_program f GLS [PBytes (hdr ++ concat descs ++ trail)%list] =
+  Ok (PDict [("lbas", PList (map gls_desc descs))]).
+Proof. exact getlbastatus_exact. Qed.
+
+(* PERSISTENT RESERVE IN / READ KEYS: PRGENERATION, ADDITIONAL LENGTH = 8 n, n keys of 8 bytes, anything *)
+Theorem C04_py_read_keys_exact : forall (hdr : bytes) (descs : list bytes) (trail : bytes) f,
+  length hdr = 8%nat -> Forall (fun d => length d = 8%nat) descs ->
+  Z.of_N (ba_to_int (skipn 4 hdr)) = Z.of_nat (length (concat descs)) ->
+  (length descs + 2 <= f)%nat ->
+  call_fun all_tables py_program f PRK [PBytes (hdr ++ concat descs ++ trail)%list] =
+  Ok (PDict [("pr_generation", PInt (Z.of_N (ba_to_int (firstn 4 hdr)))); ("reservation_keys", PList (map prk_key descs))]).
+Proof. exact prin_read_keys_exact. Qed.
+
+(* REPORT TARGET PORT GROUPS (nested lists): every number of groups, each group with its own number of target ports *)
+Theorem C04_py_rtpg_exact_length_only : forall (len4 : bytes) (groups : list tpg) (trail : bytes) f,
+  length len4 = 4%nat -> Forall tpg_ok groups ->
+  Z.of_N (ba_to_int len4) = Z.of_nat (length (concat (map tpg_bytes groups))) ->
+  (forall g gs, groups = g :: gs -> lookup "format_type" (dict_of_decoded (decode_total (g_hdr g) T_ext)) = Some (PInt 0)) ->
+  (2 * length (concat (map tpg_bytes groups)) + 4 <= f)%nat ->
+  call_fun all_tables py_program f RTPG [PBytes (len4 ++ concat (map tpg_bytes groups) ++ trail)%list] =
+  Ok (PDict [("format_type", PInt 0); ("target_port_group_descriptors", PList (map tpg_dict groups))]).
+Proof. exact rtpg_exact_length_only. Qed.
+
+Theorem C04_py_rtpg_exact_extended_header : forall (len4 ext : bytes) (groups : list tpg) (trail : bytes) (itt : pv) f,
+  length len4 = 4%nat -> length ext = 4%nat -> Forall tpg_ok groups ->
+  Z.of_N (ba_to_int len4) = Z.of_nat (4 + length (concat (map tpg_bytes groups))) ->
+  lookup "format_type" (dict_of_decoded (decode_total ext T_ext)) = Some (PInt 1) ->
+  lookup "implicit_transition_time" (dict_of_decoded (decode_total ext T_ext)) = Some itt ->
+  (2 * length (concat (map tpg_bytes groups)) + 4 <= f)%nat ->
+  call_fun all_tables py_program f RTPG [PBytes (len4 ++ (ext ++ concat (map tpg_bytes groups)) ++ trail)%list] =
+  Ok (PDict [("format_type", PInt 1); ("implicit_transition_time", itt);
+             ("target_port_group_descriptors", PList (map tpg_dict groups))]).
+Proof. exact rtpg_exact_extended_header. Qed.
+
+(* non-vacuity: a two-group response (2 ports, 0 ports) with trailing bytes, run through the regenerated body *)
+Example C04_example_py_rtpg :
+  call_fun all_tables py_program 100 RTPG
+    [PBytes ([0; 0; 0; 24] ++ ([0x81; 0x0F; 0; 7; 0; 0; 0; 2] ++ [0; 0; 0; 1] ++ [0; 0; 0; 2]) ++ [0x02; 0; 0; 9; 0; 0; 0; 0] ++ [7; 7])%list] =
+  Ok (PDict [("format_type", PInt 0);
+             ("target_port_group_descriptors", PList [
+                PDict [("asymmetric_access_state", PInt 1); ("pref", PInt 1); ("ao_sup", PInt 1); ("an_sup", PInt 1); ("s_sup", PInt 1);
+                       ("u_sup", PInt 1); ("o_sup", PInt 0); ("t_sup", PInt 0); ("target_port_group", PInt 7); ("status_code", PInt 0);
+                       ("vendor", PInt 0); ("target_port_count", PInt 2);
+                       ("target_ports", PList [PDict [("relative_target_port_id", PInt 1)]; PDict [("relative_target_port_id", PInt 2)]])];
+                PDict [("asymmetric_access_state", PInt 2); ("pref", PInt 0); ("ao_sup", PInt 0); ("an_sup", PInt 0); ("s_sup", PInt 0);
+                       ("u_sup", PInt 0); ("o_sup", PInt 0); ("t_sup", PInt 0); ("target_port_group", PInt 9); ("status_code", PInt 0);
+                       ("vendor", PInt 0); ("target_port_count", PInt 0); ("target_ports", PList [])]])]).
 Proof. vm_compute. reflexivity. Qed.
